@@ -392,15 +392,20 @@ def run(tier, seed, replay):
     quick = tier == "quick"
 
     # ---- stream S: comment runs, implementation vs model vs oracle
-    scases = gen_split_cases(rng, 2500 if quick else 40000)
+    scases = gen_split_cases(rng, 1500 if quick else 40000)
     # boundary shapes, always present
     for run_ in ["/**/", "/***/", "//\n", "// é\r\n/* b */", "/* é */ /* b */\n", "/* a\n é*/ /* b */ // c\n", "//a\r//b\n",
                  "/* 😀 */\t/* x */", "/*/ */", "/* * / */ ", "// x", "/* unterminated", "//\r\n\r\n//\r\n", "/* a */\n\n\n  /* b */",
                  "/* é\r\n 日本 */ /* c */", "/// doc é\n/// doc2\n", "/*é*//*日*//*😀*/"]:
         for pre in ["", "x é ", "a\nb\n", "é\r\n  "]:
             scases.append((pre.encode(), run_.encode(), b""))
+    import time
+    t_ = time.time()
     simpl = [parse_split(o) for o in C.run_lines(binary, [split_wire(c) for c in scases])]
+    res.coverage.setdefault('timing_s', {})['split_impl'] = round(time.time() - t_, 1)
+    t_ = time.time()
     smodel = model_split(scases)
+    res.coverage['timing_s']['split_model_coq'] = round(time.time() - t_, 1)
     s_mism = []
     s_fail = []
     distinct = set()
@@ -421,8 +426,11 @@ def run(tier, seed, replay):
     res.coverage["split_oracle_failures"] = len(s_fail)
 
     # ---- stream T: the real parser on corpus, generated texts, repository testcases
-    texts = corpus_texts() + gen_texts(rng, 250 if quick else 4000, 2 if quick else 20, lx)
+    texts = corpus_texts() + gen_texts(rng, 120 if quick else 4000, 1 if quick else 20, lx)
+    t_ = time.time()
     timpl = run_tokens(binary, texts)
+    res.coverage['timing_s']['parse_texts'] = round(time.time() - t_, 1)
+    t_ = time.time()
     t_fail = []
     n_ok = n_err = 0
     ntok = ncom = 0
@@ -452,6 +460,7 @@ def run(tier, seed, replay):
         if len(res.coverage["samples"]) < 3 and not isinstance(im, tuple):
             res.sample({"input": label, "bytes": len(text), "tokens": sum(1 for x in im if x[0] == "t"),
                         "comments": sum(1 for x in im if x[0] == "c"), "head": text[:120].decode("utf8", "replace")})
+    res.coverage['timing_s']['token_oracle'] = round(time.time() - t_, 1)
     res.coverage["evaluations"] = len(scases) + n_ok
     res.coverage["texts_parsed"] = n_ok
     res.coverage["texts_rejected_by_parser"] = n_err
